@@ -487,6 +487,17 @@ func runC04(c *core.Ctx) {
 			}
 			w.Write(p, k.content())
 		}
+		if w.Hist == 2 || (c.Thorough() && w.Hist%1500 == 2) {
+			// two files just beyond 100 MiB that differ only in their last bytes
+			w.EditRand("huge/a.bin", "c04-huge", 100<<20+5)
+			w.EditRand("huge/b.bin", "c04-huge", 100<<20+6)
+			k.goit("add", "huge/a.bin")
+			k.goit("add", "huge")
+			w.EditRand("huge/a.bin", "c04-huge", 100<<20+7)
+			k.goit("add", ".")
+			k.goit("rm", "huge/b.bin")
+			c.Count("scale.huge-file-histories")
+		}
 		if w.Hist%10 == 8 {
 			// file names containing a backslash: legal on this platform, not a separator
 			for _, p := range []string{"a\\b", "dir\\file.txt", "d/x\\y", "c:\\temp\\z", "tail\\"} {
